@@ -1,6 +1,8 @@
 (* drv_api.ml — runner handlers of the `api` engine (RunApi.v).
      atable <case> <root> <nmust> must.. <nmay> may.. => <nobs> obs..      relational: ra_accept
      astore <case> <ih> <n> ih:ip:port ..            => <k> ip:port ..     store listing, sorted
+     atables <case> <nosec 0|1> <root> <nmust> must.. <nmay> may.. => <nobs> obs..   relational: ra_accept_s
+                                                                             (a node enforcing the security extension when nosec = 0)
      acount <case> <n> gb ..                         => NumNodes Stats.Nodes Stats.GoodNodes len(Nodes)
      apeers <case> <ih> <src ip> <wants|-> <n> ih:ip:port .. => <k> ip:port ..   get_peers values, sorted
    Entries are id@ip16:port, observed ones id@ip16:port/bucket. Only the uniquely prefixed glue of
@@ -40,6 +42,7 @@ let why_text = function
   | 4 -> "entry-that-was-never-offered"
   | 5 -> "bucket-over-capacity"
   | 6 -> "offered-candidate-absent-though-its-bucket-has-room"
+  | 7 -> "entry-whose-id-is-not-valid-for-its-address"
   | _ -> "?"
 
 let () =
@@ -56,6 +59,22 @@ let () =
          let obs' = List.map obs_of_tok obs in
          if ra_accept root must may obs' then String.concat " " o
          else Printf.sprintf "REJECT %s" (why_text (int_of_nat (ra_why root must may obs')))
+       | _ -> "REJECT malformed-observation")
+    | _ -> "?");
+  reg "atables" (fun a o -> match a with
+    | _case :: nosec :: root :: rest ->
+      let nosec = (nosec = "1") in
+      let root = n_of_hex root in
+      let nmust = int_of_string (List.hd rest) in
+      let must = List.map ent_of_tok (take nmust (List.tl rest)) in
+      let rest = drop nmust (List.tl rest) in
+      let nmay = int_of_string (List.hd rest) in
+      let may = List.map ent_of_tok (take nmay (List.tl rest)) in
+      (match o with
+       | n :: obs when int_of_string n = List.length obs ->
+         let obs' = List.map obs_of_tok obs in
+         if ra_accept_s nosec root must may obs' then String.concat " " o
+         else Printf.sprintf "REJECT %s" (why_text (int_of_nat (ra_why_s nosec root must may obs')))
        | _ -> "REJECT malformed-observation")
     | _ -> "?");
   (* acount <case> <n> gb .. => NumNodes Stats.Nodes Stats.GoodNodes len(Nodes) *)
